@@ -1,15 +1,15 @@
------------------------------ MODULE MC_Compose ------------------------------
-(* Family Compose (DESIGN 4.3): every constructor of the catalogue, no      *)
-(* unknowing processes.  Serves C10, C13, C19, C07, C08, C01, C02, C11.     *)
+----------------------------- MODULE MC_Transfer -----------------------------
+(* Family Transfer (DESIGN 4.3): constructors plus hops between knowing     *)
+(* processes.  Serves C01, C02, C11, C13.                                   *)
 EXTENDS MCGen
 OpsV == {"GoNew", "Sentinel", "CtxDeadline", "Errno", "New", "Newf", "NewfW", "PkgNew", "Unimplemented",
          "AssertionFailedf", "ULeaf", "Wrap", "Wrapf", "WithMessage", "WithStack", "WithHint",
          "WithDetail", "WithSafeDetails", "WithTelemetry", "WithDomain", "WithIssueLink",
          "WithContextTags", "WithAssertionFailure", "Mark", "WithSecondaryError", "CombineErrors",
-         "Handled", "Opaque", "HandledWithMessage", "HandledInDomain", "HandledInDomainWithMessage",
+         "Handled", "HandledWithMessage", "HandledInDomain",
          "HandleAsAssertionFailure", "NewAssertionErrorWithWrappedErrf", "WrapWithHTTPCode",
          "WrapWithGrpcCode", "GoWrap", "PkgWithMessage", "PkgWithStack", "PkgWrap", "OsPathError",
-         "OsLinkError", "OsSyscallError", "UWrap", "Join", "JoinPkg", "GoJoin", "GoWrap2", "Hop"}
-ShapesV == {<<"w1">>, <<"w1", "SEP", "w2">>}
-Shapes2V == {<<"w2">>}
+         "OsLinkError", "OsSyscallError", "UWrap", "Join", "GoJoin", "GoWrap2", "Hop"}
+ShapesV == {<<"w1">>, <<"w1", "SEP", "w2">>, <<"w2", "NL", "w1">>}
+Shapes2V == {<<"w2">>, <<"w1", "SEP", "w1">>}
 =============================================================================
